@@ -5,6 +5,18 @@ import json, subprocess
 
 # id -> (category, technique, level text, level note)
 CHECKS = {
+ "C01": ("exploration",
+  "runtime monitoring: convergence oracle over generated multi-replica push/pull schedules on real repositories",
+  "Real on-disk replicas are driven through git-bug's own API along a catalogue of fork shapes and seeded random schedules, synchronised to quiescence, and a monitor compares ordered operation ids and compiled snapshots of every bug pairwise across replicas (op-id sets established by an independent git reader).",
+  "Held on the executed schedules only; trusts the harness's gitraw reader and comparators."),
+ "C02": ("exploration",
+  "runtime monitoring: three-snapshot (before fetch / after fetch / after merge) online monitor around every pull",
+  "Every pull executed in the generated worlds is bracketed by snapshots of local and remote-tracking refs; the monitor checks no-loss, containment of the remote version, presence of remote-only entities, the status table against ref-level facts and that the returned entity equals a fresh read.",
+  "Held on the executed pulls only; remote data is valid by construction (produced by git-bug's API)."),
+ "C03": ("exploration",
+  "runtime monitoring: order reference model over independently decoded commit DAGs, on produced and hand-crafted histories",
+  "Every bug read in generated replica schedules, and every read/merge of hand-crafted commit DAGs (all small fork/merge shapes, clock assignments and single perturbations from the forbidden list), is compared with a reference model of the documented ordering and refusal rules; also across storage backends and merge-parent orders.",
+  "Held on the enumerated shapes (<=5 commits exhaustively, 6 sampled) and executed schedules; trusts refmodel/order.go and the gitraw reader."),
  "C20": ("exploration",
   "runtime monitoring: Relay reference-model oracle over executed pagination calls, page walks and GraphQL requests",
   "Every generated connection function is executed on all small inputs (lengths, page sizes, cursor positions incl. foreign and malformed; bounded part exhaustive) and each observable result is compared with a Relay reference model; forward/backward page walks and end-to-end GraphQL walks replay what a client does.",
